@@ -294,6 +294,22 @@ def run(ctx):
                         res.count('nullable-loop pattern kept out of the reference comparison')
                 except Exception:
                     pass
+    # the hypothesis of C10_rset_index (RsetDefs.rset_shape: combined pattern parsed completely, one wrapper group per
+    # pattern under the outer group, re_groupcount = the parser's group count) evaluated for every set whose patterns
+    # were rendered from the generator's own trees (= grammatical patterns) and for the corpus
+    if model:
+        sj = [j for j, e in enumerate(items) if e['kind'] in ('structured', 'corpus')]
+        sans, _ = relib.run_all(model, ['S ' + ','.join(hx(x) for x in items[j]['pats']) for j in sj], chunk=2000, timeout=600, env=env)
+        nshape = 0
+        for j, a in zip(sj, sans):
+            if a == 'shape=1':
+                nshape += 1
+            elif a == 'shape=0' and (pans[j] or '').startswith('ok'):
+                res.disagree({'what': 'the bookkeeping check rset_shape (hypothesis of C10_rset_index) fails for an accepted grammatical pattern set: '
+                                      're_groupcount differs from the parser\'s group count or the tree is not outer(alt(wrapper...))',
+                              'input': [inp(items[j])], 'model': a})
+        res.extra['rset_shape_true'] = nshape
+        res.extra['rset_shape_evaluated'] = len(sj)
     parsed = []
     ndis = 0
     for j, e in enumerate(items):
